@@ -25,7 +25,7 @@ import collections
 
 VERIF = os.path.dirname(os.path.dirname(os.path.abspath(__file__)))
 # per-case budget in CPU seconds of the worker process (ITIMER_PROF): wall-clock time would turn machine load into "hangs"
-CASE_TIMEOUT_S = float(os.environ.get("VERIF_CASE_TIMEOUT", "60"))
+CASE_TIMEOUT_S = float(os.environ.get("VERIF_CASE_TIMEOUT", "20"))
 _TIMER = signal.ITIMER_PROF
 _TIMER_SIG = signal.SIGPROF
 MAX_FAILS_PER_SIG = 5          # stored per shard and signature (all are counted)
